@@ -10,7 +10,7 @@ use serde_json::json;
 use std::collections::{BTreeSet, HashMap};
 
 // "ba" and "xs::q" hold the prefixes "a" / "s::" in the middle: prefix clearing must not touch them
-const NAMES: &[&str] = &["a", "ab", "abc", "s::x", "s::y", "z", "ba", "xs::q"];
+const NAMES: &[&str] = &["a", "ab", "abc", "s::x", "s::y", "z", "ba", "xs::q", "ss::r", "aa::k"];
 
 #[derive(Clone, Debug)]
 enum Op {
